@@ -132,7 +132,7 @@ Theorem rollback_refines_nodes cbm sid st :
     J (s_next st') (s_nodes st') /\
     (cbm_ok sid (s_nodes st) -> cbm_ok cbm (s_nodes st')).
 Proof.
-  intros (U & B & K) NE GE. unfold rollback.
+  intros (U & B & K) NE GE.
   destruct (delete_graph_nodes cbm st U) as [EN EX].
   set (D := filter (fun n => negb (n_gid n =? cbm)) (s_nodes st)) in *.
   assert (J (s_next st) D) as JD.
@@ -145,7 +145,7 @@ Proof.
   { intros h k NH. unfold D. rewrite at_filter_gid. apply N.eqb_neq in NH. rewrite NH. reflexivity. }
   assert (gexists sid (delete_graph cbm st) = true) as GE'.
   { destruct (gexists_at sid st GE) as (k & n & A). apply (at_gexists sid k _ n). rewrite EN, DO; auto. }
-  rewrite GE'. cbn [negb]. unfold rehome. rewrite GE'. eexists. split; [reflexivity|].
+  unfold rollback. rewrite (rollback_gen_live _ cbm sid st GE GE'). unfold rehome. rewrite GE'. eexists. split; [reflexivity|].
   assert (s_nodes (map_gid sid (set_gid cbm) (delete_graph cbm st)) = map (rh cbm sid) D) as ES
     by (unfold map_gid; simpl; rewrite EN; reflexivity).
   assert (cbm <> sid) as NE' by auto.
